@@ -28,6 +28,9 @@ def step (s : S) (ws : List String) : S × String :=
   | ["add", l] =>
     let cs := parseList l
     ({ s with set := s.set ++ cs.filter (fun c => !s.set.contains c) }, "ok")
+  | ["merge", l] =>
+    let cs := parseList l
+    ({ s with set := s.set ++ cs.filter (fun c => !s.set.contains c) }, "ok")
   | ["clear"] => ({ s with set := [] }, "ok")
   | ["close", i] =>
     match i.toNat? with
